@@ -14,6 +14,9 @@ Transliteration of
 * `write_cloud_jsonl_vec` / `read_cloud_jsonl_vec` (+ `compression::auto_detect_reader`)
                                         → `writerCodec`, `extCodec`, `readerCodec`, `writeObj`, `readObj`
 
+* `serde_json::to_writer` / `from_str` on a float-bearing record type (`f64`, `Option<f64>`, `Vec<f32>`)
+                                        → `FRec.json`, `FRec.parse`, `floatExt` (a non-finite float is written `null`)
+
 and, independent of all of the above, the documented glob syntax: `TokMatch`/`Matches` (declarative) and
 `globMatch` (executable reference on raw pattern characters).
 
@@ -556,5 +559,142 @@ def wireExt : Ext RecTok (List Nat) where
       if tag = 0x110001 then some .gzip else if tag = 0x110002 then some .zstd
       else if tag = 0x110003 then some .bzip2 else if tag = 0x110004 then some .xz else none
     | [] => none
+
+/-! ## a float-bearing record type, as serde_json sees it
+
+`struct RecF { x: f64, o: Option<f64>, v: Vec<f32> }` of the harness. JSON has no text for NaN / ±∞:
+`serde_json::Serializer::serialize_f64/f32` writes `null` for a non-finite value (and returns `Ok`), the
+deserialiser rejects `null` where an `f64`/`f32` is expected and reads it as `None` where an `Option<f64>` is
+expected. A finite value is written as its shortest round-tripping decimal text — opaque here (`NumTok`).
+`FRec.parse` is `serde_json::from_str::<RecF>` RESTRICTED to the texts `FRec.json` can produce (compact, fields
+in declaration order); nothing else is ever stored by `write_cloud_jsonl_vec`. -/
+
+def isNumChar (c : Char) : Bool :=
+  (decide ('0' ≤ c) && decide (c ≤ '9')) || c == '-' || c == '+' || c == '.' || c == 'e' || c == 'E'
+
+/-- the decimal text of a finite float (`-0.0`, `1e-7`, `1.7976931348623157e308`, …) -/
+structure NumTok where
+  text : Str
+  ne : text ≠ []
+  ok : text.all isNumChar = true
+  deriving DecidableEq
+
+inductive FVal where
+  | fin (t : NumTok)
+  | nan | pinf | ninf
+  deriving DecidableEq
+
+def FVal.isFin : FVal → Bool
+  | .fin _ => true
+  | _ => false
+
+structure FRec where
+  x : FVal
+  o : Option FVal
+  v : List FVal
+  deriving DecidableEq
+
+def nullText : Str := ['n', 'u', 'l', 'l']
+
+/-- `serialize_f64`: `match value.classify() { Nan | Infinite => write_null, _ => write_f64 }` -/
+def FVal.json : FVal → Str
+  | .fin t => t.text
+  | _ => nullText
+
+def joinC (sep : Char) : List Str → Str
+  | [] => []
+  | [a] => a
+  | a :: b :: r => a ++ sep :: joinC sep (b :: r)
+
+/-- `str::split(sep)`: always at least one piece -/
+def splitOnC (sep : Char) : Str → List Str
+  | [] => [[]]
+  | c :: r =>
+    if c = sep then [] :: splitOnC sep r
+    else match splitOnC sep r with
+      | [] => [[c]]
+      | s :: ss => (c :: s) :: ss
+
+def pfxX : Str := ['{', '"', 'x', '"', ':']
+def pfxO : Str := [',', '"', 'o', '"', ':']
+def pfxV : Str := [',', '"', 'v', '"', ':', '[']
+def sfxV : Str := [']', '}']
+
+/-- `Option<f64>`: `None` is written `null` — as a non-finite `Some` is -/
+def optJson : Option FVal → Str
+  | none => nullText
+  | some f => f.json
+
+/-- `serde_json::to_writer(&RecF)` (derive(Serialize), compact formatter) -/
+def FRec.json (r : FRec) : Str :=
+  pfxX ++ (r.x.json ++ (pfxO ++ (optJson r.o ++ (pfxV ++ (joinC ',' (r.v.map FVal.json) ++ sfxV)))))
+
+def stripPrefix : Str → Str → Option Str
+  | [], s => some s
+  | _ :: _, [] => none
+  | p :: ps, c :: s => if p = c then stripPrefix ps s else none
+
+theorem all_takeWhile (p : Char → Bool) (l : Str) : (l.takeWhile p).all p = true := by
+  induction l with
+  | nil => rfl
+  | cons c l ih =>
+    cases h : p c <;> simp [h, ih]
+
+/-- a number where a float is expected: the maximal run of number characters, at least one
+    (`null` there: "invalid type: null, expected f64") -/
+def takeNum (s : Str) : Option (NumTok × Str) :=
+  if h : s.takeWhile isNumChar ≠ [] then
+    some (⟨s.takeWhile isNumChar, h, all_takeWhile _ _⟩, s.dropWhile isNumChar)
+  else none
+
+/-- a whole array element is one number -/
+def numWhole? (s : Str) : Option NumTok :=
+  if h : s ≠ [] ∧ s.all isNumChar = true then some ⟨s, h.1, h.2⟩ else none
+
+/-- where an `Option<f64>` is expected: `null` ↦ `None`, a number ↦ `Some` -/
+def parseO (s : Str) : Option (Option FVal × Str) :=
+  match stripPrefix nullText s with
+  | some s' => some (none, s')
+  | none => (takeNum s).map (fun ts => (some (FVal.fin ts.1), ts.2))
+
+/-- where the `Vec<f32>` is expected (and the object must end after it): the text up to the first `]`, split
+    at `,`, every element a number (`null` there: "invalid type: null, expected f32") -/
+def parseV (s : Str) : Option (List FVal) :=
+  if s.dropWhile (· != ']') = sfxV then
+    if s.takeWhile (· != ']') = [] then some []
+    else ((splitOnC ',' (s.takeWhile (· != ']'))).mapM numWhole?).map (fun ts => ts.map FVal.fin)
+  else none
+
+/-- `serde_json::from_str::<RecF>` on a line written by `FRec.json` -/
+def FRec.parse (s : Str) : Option FRec :=
+  (stripPrefix pfxX s).bind fun s =>
+  (takeNum s).bind fun xs =>
+  (stripPrefix pfxO xs.2).bind fun s =>
+  (parseO s).bind fun os =>
+  (stripPrefix pfxV os.2).bind fun s =>
+  (parseV s).map fun v => (⟨FVal.fin xs.1, os.1, v⟩ : FRec)
+
+/-- is `from_str(to_string(r))` an `Ok`: every float that is not behind an `Option` is finite -/
+def FRec.readable (r : FRec) : Bool := r.x.isFin && r.v.all FVal.isFin
+
+/-- what comes back when it is: a non-finite `Some` has become `None` -/
+def cleanO : Option FVal → Option FVal
+  | some (.fin t) => some (.fin t)
+  | _ => none
+
+def FRec.clean (r : FRec) : FRec := { r with o := cleanO r.o }
+
+/-- every float of the record is finite (the scope in which JSON can carry the record) -/
+def FRec.finite (r : FRec) : Bool :=
+  r.x.isFin && (match r.o with | some f => f.isFin | none => true) && r.v.all FVal.isFin
+
+/-- the float record type over the same wire codec as `wireExt` -/
+def floatExt : Ext FRec (List Nat) where
+  ser := FRec.json
+  de := FRec.parse
+  enc := wireExt.enc
+  dec := wireExt.dec
+  magic := wireExt.magic
+
 
 end IB.CloudGlob
